@@ -103,9 +103,32 @@ func c07Universe() (*resolve.LocalClient, resolve.VersionKey) {
 
 func VerifC07Resolve() {
 	lc, root := c07Universe()
+	c07Run(lc, root)
+}
+
+// c07Run resolves and asserts the mediation clauses on the graph.
+func c07Run(lc *resolve.LocalClient, root resolve.VersionKey) {
 	ctx := context.Background()
 	r := NewResolver(lc)
 	g, err := r.Resolve(ctx, root)
+	if !vEngine() {
+		for _, pk := range append([]resolve.PackageKey{root.PackageKey}, c07PK("g:a"), c07PK("g:b"), c07PK("g:c"), c07PK("g:d")) {
+			vs, _ := lc.Versions(ctx, pk)
+			for _, v := range vs {
+				rs, _ := lc.Requirements(ctx, v.VersionKey)
+				s := v.VersionKey.String() + " <-"
+				for _, rq := range rs {
+					s += " [" + rq.VersionKey.String() + " " + rq.Type.String() + "]"
+				}
+				vNote(s)
+			}
+		}
+		if err == nil {
+			vNote(g.String())
+		} else {
+			vNote("error: " + err.Error())
+		}
+	}
 	if err != nil {
 		// an unsatisfiable or unparsable requirement may be reported as an error instead of a graph
 		vCover(true, "resolution error")
@@ -118,31 +141,51 @@ func VerifC07Resolve() {
 		vCover(true, "graph-level error")
 		return
 	}
-	// at most one version of each artifact (group:artifact with type; jar is the default type)
-	ident := func(ni int) (string, bool) {
-		typ, seen := "", false
+	// at most one version of each artifact (group:artifact with classifier and type; jar is the default type).
+	// A node may be reached under several identities (the same version as plain jar and as a classifier
+	// variant): two nodes of one package conflict when they share an identity.
+	idents := func(ni int) []string {
+		var out []string
 		for _, e := range g.Edges {
 			if int(e.To) == ni {
 				t, _ := e.Type.GetAttr(dep.MavenArtifactType)
 				if t == "jar" {
 					t = ""
 				}
-				if seen && t != typ {
-					return "", false // reached under two identities: not comparable
-				}
-				typ, seen = t, true
+				c, _ := e.Type.GetAttr(dep.MavenClassifier)
+				out = append(out, t+"|"+c)
 			}
 		}
-		return typ, seen
+		return out
+	}
+	ident := func(ni int) (string, bool) {
+		ids := idents(ni)
+		if len(ids) == 0 {
+			return "", false
+		}
+		for _, x := range ids[1:] {
+			if x != ids[0] {
+				return "", false
+			}
+		}
+		t := ids[0]
+		for k := 0; k < len(t); k++ {
+			if t[k] == '|' {
+				return t[:k], true
+			}
+		}
+		return t, true
 	}
 	for i := 1; i < len(g.Nodes); i++ {
 		for j := i + 1; j < len(g.Nodes); j++ {
-			ti, oki := ident(i)
-			tj, okj := ident(j)
-			if !oki || !okj || ti != tj {
+			if g.Nodes[i].Version.PackageKey != g.Nodes[j].Version.PackageKey {
 				continue
 			}
-			vAssert(g.Nodes[i].Version.PackageKey != g.Nodes[j].Version.PackageKey, "at most one version of each artifact")
+			for _, a := range idents(i) {
+				for _, b := range idents(j) {
+					vAssert(a != b, "at most one version of each artifact")
+				}
+			}
 		}
 	}
 	// every edge whose requirement is a range points inside that range
@@ -258,6 +301,9 @@ func VerifC07Resolve() {
 			for _, e := range g.Edges {
 				if _, typed := e.Type.GetAttr(dep.MavenArtifactType); typed {
 					continue
+				}
+				if _, classified := e.Type.GetAttr(dep.MavenClassifier); classified {
+					continue // a classifier variant is another artifact: the management entry is for the plain one
 				}
 				if e.From != 0 && g.Nodes[e.To].Version.PackageKey == c07PK(c07Names[vParam("mgt")-1]) {
 					vCover(true, "management override checked")
